@@ -364,6 +364,18 @@ example : (modifyVelocities codeVariant codeVariant aseWitnessSetup aseWitnessSr
   norm_num [modifyVelocities, modifyAse, codeVariant, aseWitnessSetup, aseWitnessSrc, kineticEnergy, kinCol, dot,
     mulCol, divCol, sumL, drawVel, zeroMomentumFlag, resetMomentum, resetCol]
 
+/-- chaining two regenerations on one System (repeated kicks): the second call starts from the frame the
+    first one wrote, so its `dek` is measured against *that* frame's kinetic energy, not an older one -/
+example (s : Setup) (src : Frame) (e : Option Rat) (zm : Option Bool) (sig sig' : List Rat)
+    (z z' : List (List Rat)) (hng : s.engine ≠ .gromacs) :
+    let r1 := modifyVelocities codeVariant codeVariant s src e zm sig z
+    let r2 := modifyVelocities codeVariant codeVariant s r1.frame (some r1.kinNew) zm sig' z'
+    r2.dek = if kineticEnergy (mass s) r1.frame.vel = 0 then Dek.inf
+             else Dek.val (kineticEnergy (mass s) r2.frame.vel - kineticEnergy (mass s) r1.frame.vel) := by
+  intro r1 r2
+  have h := dek_consistent_all codeVariant s r1.frame (some r1.kinNew) zm sig' z'
+  simpa [hng] using h
+
 /-! ## 5. only velocities change -/
 
 /-- **Positions, box, identities.** The written frame has the source frame's positions and atom
